@@ -533,6 +533,7 @@ def run(ctx):
 
     # 'for the damage-based solvers the damage never decreases': the bound d >= d_old reaches the solver on the unknown dofs it belongs to
     ctx.attempt(_c04.elimination_rule, ctx, "R17.20")
+    ctx.attempt(_c04.bounded_solve_rule, ctx, "R17.21")
     from ..shared import per_group_state_rule as _per_group_state_rule
 
     ctx.attempt(_per_group_state_rule, ctx, "R17.18", lambda f: f.qualname.startswith("EasyFEA.Simulations."), 5)
